@@ -11,7 +11,9 @@ from lib.mirflow import Flow
 from lib.dispatch import dispatchers
 
 TECHNIQUE = ("deviant-sibling partition of the LossyFrom/LosslessInto impl bodies (normalised by their own type pair) against a frozen class table; kernel normal "
-             "form of the conversion structs; MIR edge-dominance of the element-count comparison over every call of the reshape constructor; fallback-arm shape")
+             "form of the conversion structs; MIR edge-dominance of the element-count comparison over every call of the reshape constructor; fallback-arm shape; "
+             "symbolic extents on MIR (lib/mirextent.py): output type dimensions from the resolved nalgebra types, extent operands of the allocator traced to (shape list, position), "
+             "path facts from switches, assume/guarantee between shape-keeping builders and their call sites")
 EXPLANATION = (
     "Decides structural clauses of C12: (R1) every scalar conversion arm (Value::A, Kind(B)) builds its converter from the matched value into an output cell of kind B; (R2) every element conversion impl (LossyFrom<A> for B / LosslessInto<B> for A) is exactly `value as B` (or the "
     "wrapper/`to_string`/identity forms frozen in the class table) between its own two types - so float->int truncates and saturates and widening is exact "
@@ -23,6 +25,10 @@ EXPLANATION = (
     " (R6) Value::convert_to (the scalar table behind option/set/table-column annotations): each arm builds the variant of its target kind from a single `as` cast to that kind's element type."
     ' (R7) the identity fast path of a matrix annotation (source handed back unchanged) is taken only under guards saying the requested shape list is empty or equal to the source shape and the element kinds are equal.'
     " (R8) collection conversions are all-or-nothing: per-element convert_to results never feed an adaptor that discards the Nones (filter_map, flatten, filter ..) nor an `if let Some` push without a failing else."
+    " (R9-R11) for the conversion structs whose kernel ranges over the OUTPUT buffer (zip with the source / fill), decided on the MIR of every construction site: each dynamic row / column extent of the allocated output "
+    "(and of every other shape-list-sized allocation of the conversion module, e.g. Matrix::from_vec(v, rows, cols)) comes from position 0 / 1 of one shape list; the fixed dimensions of the output type are implied by a test of the "
+    "requested shape on the path or are those of the source's storage form; and every call of a builder that allocates from an untested shape list passes the source's own shape() or a list compared equal to it in both positions - "
+    "what is decided is the provenance and position of the extents and the presence of the guards, not the converted values or the shape observed at run time."
 )
 
 ALLOWED = {
@@ -277,6 +283,8 @@ def _run(F, rep, tier):
     rep.analysed = {"conversion_impls": n, "conversion_structs": len(conv), "reshape_sites": nsites, "scalar_pair_arms": n1}
     from rules.loopshape import c12_reshape_allocation
     c12_reshape_allocation(F, rep)
+    from rules.c12_extent import run_extent_rules
+    run_extent_rules(F, rep, S)
     run_r6(F, rep, avk)
 
 
